@@ -1,7 +1,7 @@
 (* C14 — filters decide inclusion by first matching rule and prune excluded directories. *)
 From Coq Require Import List Arith NArith Lia Bool.
 Import ListNotations.
-Require Import Glob GlobLemmas Filter Walker.
+Require Import Glob GlobLemmas Filter Walker Hooks RunWhole.
 Local Open Scope N_scope.
 
 (* first matching rule wins, default allow *)
@@ -80,7 +80,28 @@ Example C14_example :
              (filter_new [45;32;42;46;111;10;43;32;97;47;42;42;10;45;32;42;42]) = Some [false; true; true].
 Proof. vm_compute. reflexivity. Qed.
 
+(* several items in one configuration: the walk of item j is the walk of ITS OWN tree under ITS OWN rule list, whatever became of the
+   items before it (missing, overlapping, failing hooks); together with C14_backed_up_iff this is the property per item *)
+Theorem C14_item_filtered_by_own_rules : forall its i j es,
+  In (IWalk j es) (fst (run_items i its)) ->
+  (i <= j)%nat /\ exists n, it_tree (nth (j - i)%nat its dflt) = Some n /\ es = fst (walk (it_filter (nth (j - i)%nat its dflt)) n [] true).
+Proof. exact item_walk_is_own. Qed.
+Check C14_item_filtered_by_own_rules : forall its i j es,
+  In (IWalk j es) (fst (run_items i its)) ->
+  (i <= j)%nat /\ exists n, it_tree (nth (j - i)%nat its dflt) = Some n /\ es = fst (walk (it_filter (nth (j - i)%nat its dflt)) n [] true).
+Theorem C14_item_walk_independent : forall its its' j es es',
+  In (IWalk j es) (fst (run_items 0 its)) -> In (IWalk j es') (fst (run_items 0 its')) ->
+  it_tree (nth j its dflt) = it_tree (nth j its' dflt) -> it_filter (nth j its dflt) = it_filter (nth j its' dflt) ->
+  es = es'.
+Proof. exact item_walk_independent. Qed.
+Check C14_item_walk_independent : forall its its' j es es',
+  In (IWalk j es) (fst (run_items 0 its)) -> In (IWalk j es') (fst (run_items 0 its')) ->
+  it_tree (nth j its dflt) = it_tree (nth j its' dflt) -> it_filter (nth j its dflt) = it_filter (nth j its' dflt) ->
+  es = es'.
+
 Print Assumptions C14_first_match.
 Print Assumptions C14_backed_up_iff.
 Print Assumptions C14_alternates.
 Print Assumptions C14_rule_line_roundtrip.
+Print Assumptions C14_item_filtered_by_own_rules.
+Print Assumptions C14_item_walk_independent.
